@@ -77,12 +77,16 @@ def PMon.goIAPDs (p : Pool6) (c : ClientKey) (t0 t1 : Int) :
     let v : PVerdict := { c08 := c08IAPD p held c q r, c09 := c09IAPD held c t1 q r }
     let rest := PMon.goIAPDs p c t0 t1 (heldAdd held c t0 r) qs rs
     (rest.1, { c08 := v.c08 && rest.2.c08, c09 := v.c09 && rest.2.c09 })
-  | held, _, _ => (held, { c08 := false })      -- not one reply IA_PD per request IA_PD
+  | held, qs, _ =>      -- not one reply IA_PD per request IA_PD (C08); an IA_PD left without an answer is, for C09, one
+                        -- answered with no prefix: it may not have asked for a prefix the client holds, or for nothing in particular
+    (held, { c08 := false, c09 := qs.all (fun q => c09IAPD held c t1 q { iaid := q.iaid, pfxs := [] }) })
 
 def PMon.step (p : Pool6) (held : List Held) (ev : PEv) : List Held × PVerdict :=
   match ev.client, ev.resp with
   | some c, some rs => PMon.goIAPDs p c ev.t0 ev.t1 held ev.iapds rs
-  | some _, none => (held, { c08 := ev.iapds.isEmpty })     -- IA_PDs went unanswered
+  | some c, none =>                                        -- IA_PDs went unanswered
+    (held, { c08 := ev.iapds.isEmpty,
+             c09 := ev.iapds.all (fun q => c09IAPD held c ev.t1 q { iaid := q.iaid, pfxs := [] }) })
   | none, _ => (held, {})
 
 def PMon.run (p : Pool6) : List Held → List PEv → List PVerdict
